@@ -82,7 +82,7 @@ def run_items(items, job):
     cli_budget = 3
     for it in items:
         key, doc = PL.item_doc(it)
-        idx = _key_index(key)
+        idx = PL.item_index(it, key)
         singles = [allr[(idx * 7) % len(allr)], allr[(idx * 13 + 5) % len(allr)]]
         configs = [("default", None), ("all", allr)] + [("only-" + s, [s]) for s in singles]
         R.evals += 1
